@@ -34,7 +34,7 @@ func TestMain(m *testing.M) {
 }
 
 var names = []string{"alpha", "beta"}
-var aliases = []string{"a.example.com", "B.Example.com", "shared.io"}
+var aliases = []string{"a.example.com", "A.EXAMPLE.com", "B.Example.com", "shared.io", "Shared.IO"}
 var endpoints = []string{"http://127.0.0.1:1", "http://127.0.0.1:2", "http://127.0.0.1:3"}
 var schemaNames = []string{"s1", "s2"}
 var probes = func() []gen.Request {
